@@ -523,6 +523,11 @@ impl OpsWorld {
             | WriteAllVectored | SendAll | CloseFd | Listen | SyncData | FAdvise | Allocate | MemAdvise | SendAllVectored
             | Pollable => "unit".to_string(),
             SockOpt | Statx | WaitId => "opaque".to_string(),
+            ReceiveSignal | ReceiveSignals | ReceiveSignalsIntoInner => {
+                // signalfd_siginfo: ssi_pid at 12, ssi_uid at 16.
+                let u = |o: usize| out.data.get(o..o + 4).map_or(0, |b| u32::from_ne_bytes(b.try_into().unwrap()));
+                format!("sig:pid={}:uid={}", u(12), u(16))
+            }
         }
     }
 
@@ -827,6 +832,12 @@ impl OpsWorld {
                         s.phase = Phase::NotStarted;
                         return (Seen::Pending, true);
                     }
+                    if s.kind.class() == Class::Rearm && val.res >= 0 {
+                        // The iterator resets its state: the next poll submits again.
+                        s.attempt_start = s.taken;
+                        s.phase = Phase::NotStarted;
+                        return (Seen::Ready(val.value), false);
+                    }
                     s.phase = Phase::Finished;
                     (Seen::Ready(val.value), false)
                 }
@@ -1049,9 +1060,14 @@ impl OpsWorld {
         talloc::track(|| drop(op));
         let _ = (in_flight, queued);
         let tail_after = simk::with(|k| k.rings[0].sq_tail());
-        let published = tail_after.wrapping_sub(tail_before);
+        let mut published = tail_after.wrapping_sub(tail_before);
         self.slots[i].dropped = true;
         let kind = self.slots[i].kind;
+        if matches!(kind, Kind::ReceiveSignal | Kind::ReceiveSignals | Kind::ReceiveSignalsIntoInner) {
+            // These own their descriptor: its CLOSE follows whatever the operation itself publishes.
+            let closes = simk::with(|k| (0..published).filter(|j| unsafe { (*k.rings[0].sqe_slot(tail_before.wrapping_add(*j))).opcode() } == OP_CLOSE).count() as u32);
+            published -= closes;
+        }
         if kind.class() != Class::Composite {
             if running_for_a10 {
                 if room {
